@@ -291,7 +291,9 @@ func c13(r *vc.Run) int {
 		}
 		r.Violation("data-race/"+s, fmt.Sprintf("race detector report x%d in the rate limiter: %s", n, s), nil)
 	}
+	pipe := c13Pipeline(r)
 	cov := map[string]any{
+		"pipeline_level":      pipe,
 		"evaluations":         m.Evaluations,
 		"distinct_nontrivial": len(m.Distinct),
 		"rule":                "one evaluation = one seeded sequence of 30-80 acquire/failure/success events (failure streaks up to 80) with 1-8 concurrent waiters on the real token bucket under a virtual clock; distinct = distinct (capacity, rate, waiters, streak mode, releases, hook events) with at least one release",
@@ -306,5 +308,6 @@ func c13(r *vc.Run) int {
 		"time is virtual: verdicts depend only on the stamps the code itself used under the bucket mutex",
 		"reference = most permissive bucket the statement allows (capacity, configured rate); penalty lower bound = min(5s*2^(k-1),30s) for the k-th consecutive 429/403/408/425 without a success in between",
 		"per bucket lifetime (hosts <= maxBuckets, no eviction)",
+		"pipeline level: arrival times of first-attempt requests per host at the origin (real clock, 0.25 s slack) must satisfy the window bound, and after a 429 no request for a not-yet-requested URL of that host may arrive for 5 s; retries of a URL are excluded because the archiver retries without consulting the limiter by design",
 	}, 50)
 }
